@@ -197,6 +197,28 @@ def find(tree, cls, name):
     raise RuntimeError("cannot find %s.%s" % (cls, name))
 
 
+def alloc_fact(tree, cls, attr, expected):
+    """True iff the class rebinds self.<attr> exactly once, in __init__, to `expected` (a float64 work buffer
+    allocated at construction: storing a float sample of any dtype into it is exact and the buffer's dtype cannot
+    depend on what the instance processed before)."""
+    sites = []
+    for node in tree.body:
+        if isinstance(node, ast.ClassDef) and node.name == cls:
+            for fn in node.body:
+                if isinstance(fn, ast.FunctionDef):
+                    for st in ast.walk(fn):
+                        tg = []
+                        if isinstance(st, ast.Assign):
+                            tg = st.targets
+                        elif isinstance(st, (ast.AugAssign, ast.AnnAssign)):
+                            tg = [st.target]
+                        for t in tg:
+                            for el in (t.elts if isinstance(t, ast.Tuple) else [t]):
+                                if ast.unparse(el) == "self." + attr:
+                                    sites.append((fn.name, ast.unparse(st.value) if getattr(st, "value", None) is not None else ""))
+    return sites == [("__init__", expected)]
+
+
 def translate(compute_src, torch_src):
     out = [
         "(* GENERATED by /verif/gen/stft.py from compute.py and torch.py - do not edit *)",
@@ -211,6 +233,9 @@ def translate(compute_src, torch_src):
     for short, nm in (("cc", "compute_chunk"), ("fin", "finalize"), ("full", "compute_full"), ("frame", "_compute_frame")):
         emit_function(short, find(ct, cls, nm), out)
         out.append("")
+    out.append("Definition g_stft_buf_is_f64_alloc_once : bool := %s." % str(alloc_fact(
+        ct, cls, "_buf", "np.empty(self._frame_length, dtype=np.float64)")).lower())
+    out.append("")
     tt = ast.parse(torch_src)
     emit_function("torch", find(tt, None, "pytorch_stft_frame_computer"), out)
     return "\n".join(out) + "\n"
